@@ -25,7 +25,6 @@ thread_local! {
     /// first clean observation in this process. A later clean observation that
     /// differs means the result depended on the history of the process.
     static GLOBAL_REFS: RefCell<HashMap<u64, u64>> = RefCell::new(HashMap::new());
-    static ENV: RefCell<Option<Arc<Env>>> = const { RefCell::new(None) };
     /// one long-lived parser per configuration and process, never reset: it accumulates
     /// the history of every run of the worker (counters that wrap, caches that fill up)
     static SOAK: RefCell<HashMap<ParserCfg, Arc<CooklangParser>>> = RefCell::new(HashMap::new());
@@ -40,6 +39,13 @@ fn soak_parser(cfg: &ParserCfg) -> Arc<CooklangParser> {
         }
         t[cfg].clone()
     })
+}
+
+/// the scenario being executed, for re-entrant nested operations started from a seam
+static ENV: std::sync::RwLock<Option<Arc<Env>>> = std::sync::RwLock::new(None);
+
+fn env_set(e: Option<Arc<Env>>) {
+    *ENV.write().unwrap_or_else(|p| p.into_inner()) = e;
 }
 
 pub const TEMPLATE_HASH_SEED: u64 = 0x00C0_FFEE_0000_0001;
@@ -536,7 +542,7 @@ fn check(env: &Env, op: &Op, obsd: &Observed, phase: &str, faults: bool) {
 
 /// Called from `sim::seam` for a planned re-entrant operation.
 pub fn run_nested(op: &Op) {
-    let env = ENV.with(|e| e.borrow().clone());
+    let env = ENV.read().unwrap_or_else(|p| p.into_inner()).clone();
     let Some(env) = env else { return };
     let parser = &env.parsers[op.parser];
     let input = &env.sc.inputs[op.input];
@@ -691,7 +697,7 @@ pub fn execute(rp: &RefPhase, sched: &SchedSpec, want_log: bool) -> (Vec<Violati
         }
     });
     cooklang::verif_seam::reseed(env.sc.hash_seed ^ 0x9999);
-    ENV.with(|e| *e.borrow_mut() = Some(env.clone()));
+    env_set(Some(env.clone()));
     let scheduler = SimScheduler::new(sched.clone());
     let record = scheduler.record.clone();
     let mut cfg = shuttle::Config::new();
@@ -729,7 +735,7 @@ pub fn execute(rp: &RefPhase, sched: &SchedSpec, want_log: bool) -> (Vec<Violati
         });
     }));
     sim::with(|s| s.in_sim = false);
-    ENV.with(|e| *e.borrow_mut() = None);
+    env_set(None);
     if let Err(p) = r {
         let msg = panic_text(p);
         let class = if msg.contains("exceeded max_steps") { "hang" } else if msg.contains("deadlock") { "deadlock" } else { "harness-panic" };
@@ -845,4 +851,120 @@ pub fn run_real_threads(sc: &Scenario) -> Vec<Violation> {
         }
     }
     out
+}
+
+/// Phases 2 and 3 on real OS threads under the baton scheduler (see sim.rs). Same
+/// operations, same seams, same faults, same oracles; true per-thread thread-locals.
+pub fn execute_baton(rp: &RefPhase, seed: u64, stay: u32) -> (Vec<Violation>, bool) {
+    let env = rp.env.clone();
+    sim::with(|s| *s = sim::SimCtx::new());
+    cooklang::verif_seam::reseed(env.sc.hash_seed ^ 0x9999);
+    env_set(Some(env.clone()));
+    let n = env.sc.threads.len();
+    sim::baton_begin(n, seed, stay, std::time::Duration::from_secs(20));
+    std::thread::scope(|scope| {
+        for (ti, ops) in env.sc.threads.iter().enumerate() {
+            let env = env.clone();
+            scope.spawn(move || {
+                sim::baton_enter(ti + 1);
+                for op in ops {
+                    let o = perform(&env.parsers[op.parser], &env.sc.inputs[op.input], op, true, 0);
+                    check(&env, op, &o, "perturbed", true);
+                }
+                sim::baton_exit();
+            });
+        }
+    });
+    // post phase on this (spawning) thread, still collecting into the shared context
+    sim::with(|s| s.in_sim = false);
+    sim::baton_set_task(0);
+    for op in env.sc.all_ops() {
+        let mut clean = op.clone();
+        clean.faults.clear();
+        let o = perform(&env.parsers[op.parser], &env.sc.inputs[op.input], &clean, false, 0);
+        check(&env, &clean, &o, "post", false);
+    }
+    let (mut ctx, timed_out) = sim::baton_end();
+    env_set(None);
+    (std::mem::take(&mut ctx.violations), timed_out)
+}
+
+/// Is a violation of `class` realisable without simulated threads sharing thread-locals?
+/// (a) the scenario has one thread already; (b) all operations moved onto one thread, in a few
+/// orders, still violate (sequential or re-entrant history); (c) real OS threads under the
+/// baton scheduler violate for some seeded schedule.
+pub fn confirm(sc: &Scenario, class: &str, tries: u64) -> (bool, String) {
+    if sc.threads.len() <= 1 {
+        return (true, "single-threaded scenario".into());
+    }
+    // (b) sequentialised variants
+    let mut orders: Vec<Vec<usize>> = vec![(0..sc.threads.len()).collect(), (0..sc.threads.len()).rev().collect()];
+    if sc.threads.len() > 2 {
+        orders.push(vec![1, 0, 2].into_iter().filter(|&i| i < sc.threads.len()).chain(3..sc.threads.len()).collect());
+    }
+    for ord in &orders {
+        let mut one = sc.clone();
+        one.threads = vec![ord.iter().flat_map(|&t| sc.threads[t].clone()).collect()];
+        let rp = reference_phase(&one);
+        if rp.violations.iter().any(|v| v.class == class) {
+            return (true, "reproduces in the reference phase alone (no threads involved)".into());
+        }
+        let (v, _) = execute(&rp, &SchedSpec::Random { seed: 1, stay: 0 }, false);
+        if v.iter().any(|x| x.class == class) {
+            return (true, format!("reproduces with all operations on one thread in thread order {ord:?}"));
+        }
+    }
+    // (b') re-entrant variants: one operation nested into another at every event pull of the
+    // outer one (a caller whose iterator or callback parses another recipe)
+    let flat: Vec<Op> = sc.threads.iter().flatten().cloned().collect();
+    let mut tried = 0;
+    'outer: for outer in flat.iter().take(5) {
+        let (meta, cb) = match &outer.kind {
+            OpKind::Parse { cb, .. } => (false, cb.clone()),
+            OpKind::Metadata { cb, .. } => (true, cb.clone()),
+            _ => continue,
+        };
+        let nev = count_events(sc.parsers[outer.parser].ext_bits, &sc.inputs[outer.input], meta).min(60);
+        for inner in flat.iter().take(5) {
+            let mut inner = inner.clone();
+            inner.faults.clear();
+            for n in 0..=nev {
+                tried += 1;
+                if tried > 1500 {
+                    break 'outer;
+                }
+                let mut o = outer.clone();
+                o.kind = if meta { OpKind::Metadata { via: Via::Adapter, cb: cb.clone() } } else { OpKind::Parse { via: Via::Adapter, cb: cb.clone(), truncate: None } };
+                o.faults = vec![Fault::Reenter { seam: SeamKind::Iter, n, op: Box::new(inner.clone()) }];
+                let mut one = sc.clone();
+                one.threads = vec![vec![o]];
+                let rp = reference_phase(&one);
+                let (v, _) = execute(&rp, &SchedSpec::Random { seed: 1, stay: 0 }, false);
+                if v.iter().any(|x| x.class == class) || rp.violations.iter().any(|x| x.class == class) {
+                    return (true, format!("reproduces on one thread when one operation is nested into another at event pull {n} (re-entrant caller)"));
+                }
+            }
+        }
+    }
+    // (c) real threads, seeded baton schedules
+    let rp = reference_phase(sc);
+    if rp.violations.iter().any(|v| v.class == class) {
+        return (true, "reproduces in the reference phase alone (no threads involved)".into());
+    }
+    let mut timeouts = 0;
+    for i in 0..tries {
+        let stay = [0u32, 50, 80, 95][(i % 4) as usize];
+        let (v, timed_out) = execute_baton(&rp, i, stay);
+        if timed_out {
+            timeouts += 1;
+            if timeouts >= 3 {
+                return (false, "real-thread executions time out (a blocking primitive is held across a scheduling point)".into());
+            }
+            continue;
+        }
+        if v.iter().any(|x| x.class == class) {
+            return (true, format!("reproduces on real OS threads under the baton scheduler (schedule seed {i}, stay {stay}%)"));
+        }
+    }
+    (false, format!("not reproduced by sequential variants nor by {tries} seeded schedules on real OS threads"))
 }
